@@ -159,7 +159,7 @@ Crossbeam<'a, ItemType, BUFFER_SIZE, MAX_STREAMS> {
 
     #[inline(always)]
     fn send_derived(&self, arc_item: &Arc<ItemType>) -> bool {
-        for stream_id in self.streams_manager.used_streams() {
+        for stream_id in self.streams_manager.used_streams_snapshot().0.iter() {
             if *stream_id == u32::MAX {
                 break
             }
